@@ -670,6 +670,10 @@ func (fv *FnVerifier) atReturn(r *ssa.Return, st *State) {
 	fv.probe("cover", fmt.Sprintf("ret%d", fv.retCount), reach)
 	ce := fv.newCEnv(names, st, fv.entry)
 	for _, c := range fv.fc.Ensures {
+		if c.Assumed {
+			fv.note("assumed post-condition (ensures_assumed, not checked against the body): " + fv.fnShort + ": " + c.Label)
+			continue
+		}
 		for _, part := range ce.evalClause(c) {
 			o := fv.oblige("post", part.label, reach, part.term, r.Pos(), c.Src)
 			o.Ctx.post = postSnap
